@@ -208,7 +208,54 @@ def _synth_centres(job, g):
     return {"atoms": atoms, "box": list(box)}
 
 
-def add_coordinates(job, g, profile, force_res=None):
+def prepare_ligands(job, g):
+    """-lig workload, step 1 (before coordinates are derived): 1-3 single-bead molecules LG are appended to the system.
+    They will be missing from the supplied structure and named as ligands of supplied residues."""
+    spec = job["spec"]
+    hosts = [m for m in spec["moltypes"] if len(m["residues"]) >= 2]
+    if not hosts or "LGR" in spec["restypes"]:
+        return False
+    at = spec["atypes"][0]["name"]
+    spec["restypes"]["LGR"] = {"name": "LGR", "atoms": [{"name": "L1", "atype": at}], "bonds": [], "constraints": [],
+                               "angles": [], "vsites": [], "blen": 0.3}
+    spec["moltypes"].append({"name": "LG", "shape": "single", "residues": ["LGR"], "edges": [], "nrexcl": 1})
+    first = sum(c for _n, c in spec["molecules"])
+    n = g.randint(1, 3)
+    spec["molecules"].append(["LG", n])
+    job["lig_plan"] = {"first": first, "n": n}
+    return True
+
+
+def finish_ligands(job, g):
+    """-lig workload, step 2: every LG molecule becomes the ligand of a residue of a supplied host molecule"""
+    from gen import bldgen
+    plan = job["lig_plan"]
+    inst = bldgen.instances(job["spec"])
+    hosts = [i for i in range(plan["first"]) if len(inst[i]["residues"]) >= 2]
+    if not hosts:
+        return False
+    ligs = []
+    used = set()
+    for k in range(plan["n"]):
+        h = g.choice(hosts)
+        nres = len(inst[h]["residues"])
+        free = [r for r in range(1, nres + 1) if (h, r) not in used]
+        if not free:
+            continue
+        # mostly not the first residue: the root of the growth order is never the target of a step
+        resid = g.choice([r for r in free if r >= 2] or free) if g.random() < 0.8 else g.choice(free)
+        used.add((h, resid))
+        ligs.append([f"{inst[h]['name']}#{h}-{inst[h]['residues'][resid - 1]}#{resid}", f"LG#{plan['first'] + k}"])
+    if not ligs:
+        return False
+    job["opts"]["ligands"] = ligs
+    bv = dict(job.get("bld_volumes") or {})
+    bv["LGR"] = g.choice([0.4, 0.45, 0.5])      # the stand-in node of a ligand is sized by residue name
+    job["bld_volumes"] = bv
+    return True
+
+
+def add_coordinates(job, g, profile, force_res=None, cut_at_instance=None):
     """Turn `job` into a two-stage job: supply (part of) an earlier build as -c / -mc input."""
     from gen import topgen
     from oracles.final_state import write_gro_text
@@ -248,11 +295,15 @@ def add_coordinates(job, g, profile, force_res=None):
         job["synthetic_centres"] = True
     mode = g.choice(profile.get("coord_modes", ["full", "prefix", "prefix", "meta_full", "meta_prefix", "res", "res_prefix",
                                                 "ign", "ign", "meta_res", "meta_res_prefix"]))
+    if cut_at_instance is not None:
+        mode = "meta_prefix" if (synth or g.random() < 0.6) else "prefix"
     kind = "meta" if mode.startswith("meta") else "mol"
     nres = len(residues)
     cut = nres
     if "prefix" in mode:
         cut = g.randint(1, max(1, nres - 1))
+    if cut_at_instance is not None:
+        cut = min(k for k, r in enumerate(residues) if r[0] >= cut_at_instance)
     res_names = []
     ignore = []
     molnames = [m for m, _ in spec["molecules"]]
@@ -332,7 +383,7 @@ def add_user_grid(job, g):
     box = job["opts"].get("box")
     if box is None:
         return False
-    n = g.randint(30, 200)
+    n = g.choice([2, 3, 3, 4]) if g.random() < 0.3 else g.randint(30, 200)       # also files with very few points (a one-line file is read as a 1-D array and crashes polyply: not generated)
     job["grid_points"] = [[round(g.uniform(0, box[d] * 0.999), 4) for d in range(3)] for _ in range(n)]
     return True
 
@@ -543,6 +594,26 @@ def add_pre_spec(job, g):
         mt.update({"shape": "linear", "residues": [names[0]] * 3, "edges": [[0, 1], [1, 2]]})
         mt.pop("residue_override", None)
     job["pre_spec"] = alt
+    return True
+
+
+def add_cond_include(job, g):
+    """the last molecule type is #included inside a top-level #ifdef/#ifndef section whose other branch includes a
+    different description under the same moleculetype name"""
+    scratch = {"spec": job["spec"]}
+    if job["spec"].get("cond_include") or not add_pre_spec(scratch, g):
+        return False
+    alt = scratch["pre_spec"]["moltypes"][-1]
+    kind = g.choice(["ifdef", "ifndef"])
+    defined = g.random() < 0.5
+    first_active = (kind == "ifdef") == defined
+    # without #else only an inactive single branch with the other description makes sense next to a plain include:
+    # keep #else in every generated case
+    # with split_all no moleculetype is written into the .top itself: the pragmas are then met at the top level of
+    # the file; otherwise they follow the inline first moleculetype
+    job["spec"]["split_all"] = g.random() < 0.5
+    job["spec"]["cond_include"] = {"flag": g.choice(["VARIANT", "FLEXIBLE", "FINE"]), "kind": kind, "defined": defined,
+                                   "alt": alt, "with_else": True, "first_active": first_active}
     return True
 
 
